@@ -137,7 +137,7 @@ check('C04', 'exploration',
       'part on the API transport: every sequence of 4 (quick) / 6 (thorough) operations over a 12-letter alphabet. Enumerated '
       'sweeps: a local definition / alias / catcode change inside the argument or body of every Base.LaTeX macro (catalogue, 166 '
       'macros, dimension arguments in seven spellings); the locals sweep (74 macro classes that nest macro classes, four class '
-      'orders); user-defined and undefined environments; packages loaded inside groups; names that start undefined. Three OPEN '
+      'orders); user-defined and undefined environments; packages loaded inside groups; names that start undefined. Two OPEN '
       'findings (\\global prefix; a declaration inside its own environment form) are reported as KNOWN-FINDING.',
       'Trusted: the ~60-line frame-stack model and the TeX-transport compiler. Normal form of the TeX transport (each rule keeps '
       'a lexer look-ahead artefact - C01/C05 matters - out of this check): \\catcode`\\@=N\\relax; every PROBE preceded by a '
